@@ -48,15 +48,22 @@ CONSTANTS Pre,       \* indices of entries that may stand before the last constr
                      \* "option" (the extractor's encoding option only), "both", "neither" (UTF-8 / ASCII source)
           Encs,      \* codecs: "ascii", "utf-8", "cp1251", "koi8-r", "latin-1", "iso-8859-15"; "any" = drawn by the harness
           MsgClasses,\* "ascii" | "nonascii" (characters of the codec's repertoire) | "any"
+          Cfgs,      \* configurations of the extractor: sets of comment tags ("A", "B"); {} = no tag configured
+          MaxStages, \* at most this many Configure steps over ONE extractor object (the first is its construction)
           Magic      \* catalog index of the magic-comment line (an untagged ## line that must be line 1)
 XCat == XCatDef
 
-VARIABLES tpl, nlk, src, phase, i, tcs, intc, out
-vars == <<tpl, nlk, src, phase, i, tcs, intc, out>>
+VARIABLES tpl, nlk, src, cfg, hist, phase, i, tcs, intc, out
+vars == <<tpl, nlk, src, cfg, hist, phase, i, tcs, intc, out>>
 
 LineOf(t, n) == L_LineOf(XCat, t, n)
 ColOf(t, n)  == L_ColOf(XCat, t, n)
-Kind(e) == XCat[e].kind
+\* The extractor's configuration is STATE (`cfg` = the comment tags configured NOW; `hist` = every configuration
+\* the one extractor object has had, oldest first: constructed with hist[1], then update_config ...).  A ## line
+\* counts as tagged iff its tag (catalog field `tag`: "A", "B" or "none") is configured at the moment of THIS
+\* extraction: what an extraction reports depends on cfg only, never on earlier elements of hist.
+Kind(e) == LET k == XCat[e].kind IN
+           IF k \in {"tc", "uc"} THEN (IF XCat[e].tag \in cfg THEN "tc" ELSE "uc") ELSE k
 IsCmt(e) == Kind(e) \in {"tc", "uc"}
 MayFollow(t, e) == XCat[e].ls => L_AtLineStart(XCat, t)
 HasOwn(e) == \E n \in 1..Len(XCat[e].msgs) : XCat[e].msgs[n].own
@@ -93,15 +100,15 @@ Sources == {s \in [decl : Decls, enc : Encs, mc : MsgClasses] :
               /\ (s.decl = "neither" => s.enc \in {"ascii", "utf-8", "any"})
               /\ (s.enc = "ascii" => s.mc \in {"ascii", "any"})}
 NPre == Len(tpl) - (IF HasMagic(src) THEN 1 ELSE 0)
-Init == /\ nlk \in NLKinds /\ phase = "build" /\ i = 1 /\ src \in Sources
+Init == /\ nlk \in NLKinds /\ phase = "build" /\ i = 1 /\ src \in Sources /\ cfg \in Cfgs /\ hist = <<cfg>>
         /\ tpl = (IF HasMagic(src) THEN <<Magic>> ELSE <<>>)
         /\ tcs = <<>> /\ intc = FALSE /\ out = <<>>
 Add(e) == /\ phase = "build" /\ NPre < MaxPre /\ e \in Pre
           /\ MayFollow(tpl, e) /\ Specified(tpl, e)
-          /\ tpl' = Append(tpl, e) /\ UNCHANGED <<nlk, src, phase, i, tcs, intc, out>>
+          /\ tpl' = Append(tpl, e) /\ UNCHANGED <<nlk, src, cfg, hist, phase, i, tcs, intc, out>>
 AddLast(e) == /\ phase = "build" /\ e \in Last /\ MayFollow(tpl, e) /\ Specified(tpl, e)
               /\ tpl' = Append(tpl, e) /\ phase' = "run"
-              /\ UNCHANGED <<nlk, src, i, tcs, intc, out>>
+              /\ UNCHANGED <<nlk, src, cfg, hist, i, tcs, intc, out>>
 \* BabelMakoExtractor.process_python: code_lineno + (lineno - 1), code_lineno = node.lineno - 1,
 \* lineno = line inside "\n" + code
 ReportedLine(nodeline, off) == (nodeline - 1) + ((1 + (off + 1)) - 1)
@@ -127,12 +134,17 @@ Step ==
             IN /\ out' = out \o ms
                /\ tcs' = (IF HasOwn(e) THEN <<>> ELSE live)
                /\ intc' = FALSE
-  /\ i' = i + 1 /\ UNCHANGED <<tpl, nlk, src, phase>>
+  /\ i' = i + 1 /\ UNCHANGED <<tpl, nlk, src, cfg, hist, phase>>
 Finish == /\ phase = "run" /\ i > Len(tpl) /\ phase' = "done"
-          /\ UNCHANGED <<tpl, nlk, src, i, tcs, intc, out>>
-Emit == /\ phase = "done" /\ PrintT(ToJson([seq |-> tpl, nl |-> nlk, src |-> src, out |-> out]))
-        /\ phase' = "end" /\ UNCHANGED <<tpl, nlk, src, i, tcs, intc, out>>
-Next == (\E e \in Pre : Add(e)) \/ (\E e \in Last : AddLast(e)) \/ Step \/ Finish \/ Emit
+          /\ UNCHANGED <<tpl, nlk, src, cfg, hist, i, tcs, intc, out>>
+Emit == /\ phase = "done" /\ PrintT(ToJson([seq |-> tpl, nl |-> nlk, src |-> src, hist |-> hist, out |-> out]))
+        /\ phase' = "end" /\ UNCHANGED <<tpl, nlk, src, cfg, hist, i, tcs, intc, out>>
+\* update_config on the same extractor object, then the template is extracted again
+Configure(c) == /\ phase = "end" /\ Len(hist) < MaxStages /\ c \in Cfgs
+                /\ cfg' = c /\ hist' = Append(hist, c)
+                /\ phase' = "run" /\ i' = 1 /\ tcs' = <<>> /\ intc' = FALSE /\ out' = <<>>
+                /\ UNCHANGED <<tpl, nlk, src>>
+Next == (\E e \in Pre : Add(e)) \/ (\E e \in Last : AddLast(e)) \/ Step \/ Finish \/ Emit \/ (\E c \in Cfgs : Configure(c))
 Spec == Init /\ [][Next]_vars
 
 (* ----------------------------- invariants ----------------------------- *)
